@@ -107,8 +107,14 @@ def diff(a, b):
 
 # ------------------------------------------------------------------ generation
 
+# signed ingredients: current-SDK manifests (C.jpg, CA.jpg) and manifests whose own ingredients are referenced by legacy
+# c2pa.ingredient / .v2 assertions (CIE-sig-CA.jpg, legacy_ingredient_hash.jpg, CACAE-uri-CA.jpg): their nested manifests must
+# survive the flattening that a restored builder uses to rebuild the ingredient's manifest data
+SIGNED_INGREDIENTS = [{"fixture": f, "fmt": "image/jpeg"} for f in ("C.jpg", "CIE-sig-CA.jpg", "CA.jpg", "legacy_ingredient_hash.jpg", "CACAE-uri-CA.jpg", "CACA.jpg")]
+
+
 def gen_case(rng, srcs, i):
-    c = c03.gen_case(rng, srcs, i, {"fixture": "C.jpg", "fmt": "image/jpeg"})
+    c = c03.gen_case(rng, srcs, i, SIGNED_INGREDIENTS if len(srcs) > 9 else SIGNED_INGREDIENTS[:4])
     c.pop("want_jumbf", None)
     spec = c["spec"]
     # archives are a v2 workflow here; keep embedded / sidecar modes (remote needs XMP support of the format)
@@ -117,6 +123,9 @@ def gen_case(rng, srcs, i):
         spec.pop("no_embed", None)
     c["meta"]["mode"] = "sidecar" if spec.get("no_embed") else "embedded"
     spec["settings"].pop("core", None)
+    for a in spec["definition"]["assertions"]:
+        if a["label"] == "stds.schema-org.CreativeWork":
+            a.pop("created", None)          # C03 F-CW-CREATED: not this property's subject
     c["chain"] = 1 + i % 3
     return c
 
@@ -187,7 +196,9 @@ def evaluate(ctx, cases, with_model=True):
         stats["by_format"][meta["src"]] = stats["by_format"].get(meta["src"], 0) + 1
         ings = spec.get("ingredients") or []
         stats["with_ingredients"] += bool(ings)
-        stats["with_signed_ingredient"] += any(g["src"].get("fixture") == "C.jpg" for g in ings)
+        stats["with_signed_ingredient"] += any(g["src"].get("fixture", "").endswith(".jpg") for g in ings)
+        stats["with_legacy_ingredient"] = stats.get("with_legacy_ingredient", 0) + any(
+            g["src"].get("fixture") in ("CIE-sig-CA.jpg", "legacy_ingredient_hash.jpg", "CACAE-uri-CA.jpg") for g in ings)
         stats["with_thumbnail"] += ("thumbnail" in spec["definition"]) or meta["thumbs"]
         stats["with_resources"] += bool(spec.get("resources"))
         stats["claim_v1"] += meta["version"] == 1
